@@ -100,7 +100,7 @@ def run_history(rep, rec, idx, rng):
     L2h = osyris.core.layer.Layer(w2)
     resolution = {"x": 4, "y": 4}
     origin = osyris.Vector(0.5, 0.5, 0.5, unit="cm")
-    dxq, dzq = 1.0 * U("cm"), 0.5 * U("cm")
+    dxq, dzq = 10.0 * U("mm"), 5.0 * U("mm")            # the window in another length unit than the positions
     # orientation objects of the caller (unit length already), shared by the calls of the history
     dirv = osyris.Vector(0.0, 0.0, 1.0, name="mydir")
     dirb = osyris.VectorBasis(n=osyris.Vector(0.0, 0.0, 1.0, name="bn"), u=osyris.Vector(1.0, 0.0, 0.0, name="bu"), v=osyris.Vector(0.0, 1.0, 0.0, name="bv"))
@@ -178,7 +178,7 @@ def run_history(rep, rec, idx, rng):
                         d = f"precedence: layer {li + 1} operation looks like {got_op}, expected {want_op} ({eff['operation']})"
                         break
         key = (fn, tuple(sorted(cs)), (idx + step) % 3 if fn == "map" else 0)
-        datas = [np.ma.filled(l["data"], -1.0).copy() for l in p.layers]
+        datas = [np.ma.filled(l["data"], -1.0).copy() for l in p.layers] + [np.asarray(p.x, dtype=float).copy(), np.asarray(p.y, dtype=float).copy()]
         if d is None and key in first:
             if not all(np.array_equal(a, b) for a, b in zip(first[key], datas)):
                 d = "idempotence: the same call returned different data later in the history"
@@ -231,6 +231,7 @@ def run_hist1d_scatter_plot(rep, tier, rng):
                                 p1 = osyris.histogram1d(L, **ckw)
                                 p2 = osyris.histogram1d(plain, **ckw)
                                 p1b = osyris.histogram1d(L, **ckw)
+                                p3 = osyris.histogram1d(L, plain, **ckw)        # two layers in one call: the data returned are the last layer's
                             except Exception as e:
                                 rep.mismatch({"module": "LayerOptions", "fn": "histogram1d", "field": "raises"}, f"histogram1d layer {lkw.keys()} call {ckw.keys()}: {type(e).__name__}: {e}", case={}, module="layers")
                                 continue
@@ -240,7 +241,8 @@ def run_hist1d_scatter_plot(rep, tier, rng):
                             if not (same_layer(s0[0], snap_layer(L)) and same_layer(s0[1], snap_layer(plain))):
                                 d = "arguments: a Layer was modified by histogram1d"
                             for p, (b, wt, cu) in ((p1, (2 if lb else 4 if cb else 50, 2.0 if lw else 3.0 if cw else 1.0, True if lk else -1 if ck else False)),
-                                                   (p2, (4 if cb else 50, 3.0 if cw else 1.0, -1 if ck else False))):
+                                                   (p2, (4 if cb else 50, 3.0 if cw else 1.0, -1 if ck else False)),
+                                                   (p3, (4 if cb else 50, 3.0 if cw else 1.0, -1 if ck else False))):
                                 if d:
                                     break
                                 if len(p.x) != b:
